@@ -23,6 +23,7 @@ import (
 
 // Profile is what the registry can do.
 type Profile struct {
+	RefPageLimit int // Referrers API: at most this many descriptors per response, continued through a Link (0: one page)
 	Referrers bool `json:"referrers"` // Referrers API (and the OCI-Subject header on manifest PUT)
 	DigestHdr bool `json:"digesthdr"` // Docker-Content-Digest on blob / manifest responses
 	Range     bool `json:"range"`     // Accept-Ranges: bytes and Range requests on blobs
@@ -438,6 +439,23 @@ func (r *Registry) RoundTrip(req *http.Request) (*http.Response, error) {
 				if m.Subject == ref && (at == "" || m.ArtType == at) {
 					ms = append(ms, ocispec.Descriptor{MediaType: m.MediaType, Digest: digest.Digest(d), Size: int64(len(m.Body)), ArtifactType: m.ArtType, Annotations: m.Ann})
 				}
+			}
+			// pagination is the server's choice: a continuation parameter of its own in the Link it hands out
+			if after := req.URL.Query().Get("verifafter"); after != "" {
+				k := 0
+				for k < len(ms) && ms[k].Digest.String() <= after {
+					k++
+				}
+				ms = ms[k:]
+			}
+			if lim := r.Profile.RefPageLimit; lim > 0 && len(ms) > lim {
+				ms = ms[:lim]
+				nq := url.Values{}
+				nq.Set("verifafter", ms[len(ms)-1].Digest.String())
+				if at != "" {
+					nq.Set("artifactType", at)
+				}
+				h.Set("Link", "</v2/"+repoName+"/referrers/"+ref+"?"+nq.Encode()+`>; rel="next"`)
 			}
 			if ms == nil {
 				ms = []ocispec.Descriptor{}
